@@ -17,6 +17,7 @@ ENGINE_TRUSTED = [
     "text/template is modelled for literal text and {{.name}} placeholders only (missingkey=error); generated inputs never contain '{' (an error prefix quoting such input would be parsed as a template action)",
     "CBOR round trip of the exported State/Cache fields is modelled as snapshot/restore; every persisted-mode case goes through the real persister and memory store",
     "resource lookups and external functions are parameters of the model (tables in the case); lang.LanguageFromCode is a parameter filled from the codes used; about a fifth of the cases are served through the library's own resource.DbResource over a mem or fs store holding the same tables (bytecode under BIN, templates under TEMPLATE, labels under MENU as <sym>_menu, translations under their language), so resource/db.go and the store's language fallback are inside the compared behaviour",
+    "how a case is served is varied by the harness without telling the model: bytecode produced by the real assembler from the instructions' source text (inside the domain of assemble_faithful), a persister WithFlush(), application and session in one store object, handler symbols with fixed content stored under STATICLOAD (their calls are then not logged and not compared), a second independent session served from the same bytecode slices between the requests, and a third serving mode (one long-lived engine that is given a persister); the ISO-639 table of the cases (part 1, part 3, part 2 bibliographic codes) is written down in the harness",
     "Vm.Run is structurally recursive on fuel (Cfg.fuel, 2000 in the driver; exhaustion is reported, never compared); theorems hold for every fuel",
     "error texts that reach a page as prefix are reproduced byte for byte for the VM's own messages; others are marked and compared by presence only",
 ]
@@ -133,6 +134,7 @@ DB_TRUSTED = [
     "binary-key mode: base64 is a parameter of the model (theorems hold for any encoder); the driver uses its own base64 implementation, compared with Go's on every generated key",
     "the Postgres wrapper is exercised over the in-process fake driver (harness/internal/pgfake); without injected faults the model treats it as the memory map on the same storage keys (C13 models the transactions)",
     "db/gdbm (cgo) is not built in this sandbox and not modelled",
+    "Postgres listing (Dump): the model works on the rows in key order, which is what the fake server returns for the query (the query has no ORDER BY; a real server may return another order); it is exercised in the adversarial domain for C11's isolation clause only (C10 states listing for the filesystem backend); Dump resets the handle's language, which model and harness bookkeeping reproduce",
 ]
 PROPS['C10'] = dict(
     prop_modules=['Vise.Props.C10'], lean_targets=['Vise.Props.C10'], suites=['db'],
